@@ -30,7 +30,9 @@ FAMILIES: dict[str, dict] = {
                              # alternatives sharing a first item, in a rule that ends there (what a choice factorizer rewrites)
                              WSP + 'b = { "x" ~ "y" | "x" }\na = { b ~ "x"? }', WSP + 'b = { "x" | "x" ~ "y" }\na = { b ~ "y"? }', WSP + 'b = { "x" ~ "y" | "x" ~ "x" | "x" }\na = { b* }'], "alphabet": "xy ", "n": 4},
     "optional": {"grammars": ['a = { ("x" ~ "y")? ~ "x" }', 'b = { "x" }\na = { (b ~ "y")? ~ b }', WSP + 'a = { "x"? ~ "y" }'], "alphabet": "xy ", "n": 4},
-    "repeat": {"grammars": [WSP + 'a = { "x"* }', WSP + 'a = { "x"* ~ "y" }', WSV + 'a = { ("x" ~ "y")* ~ "x" }', WSP + CMT + 'a = { "x"* }', 'b = { "x" }\na = { (b ~ "y")* }'], "alphabet": "xy #!", "n": 5},
+    "repeat": {"grammars": [WSP + 'a = { "x"* }', WSP + 'a = { "x"* ~ "y" }', WSV + 'a = { ("x" ~ "y")* ~ "x" }', WSP + CMT + 'a = { "x"* }', 'b = { "x" }\na = { (b ~ "y")* }',
+                             # repetition of a bare rule reference with non-silent trivia after the last iteration (round-7 seed C04d)
+                             WSV + 'b = { "x" }\na = { b* }', WSV + 'b = { "x" }\na = { b* ~ "y" }', WSV + 'b = { "x" }\na = { b+ ~ "y"? }'], "alphabet": "xy #!", "n": 5},
     "repeat_once": {"grammars": [WSP + 'a = { "x"+ }', WSP + 'a = { "x"+ ~ "y" }', WSV + 'a = { ("x" ~ "y")+ ~ "x"? }', 'b = { "x" }\na = { (b ~ "y")+ }'], "alphabet": "xy ", "n": 5},
     "repeat_exact": {"grammars": [WSP + 'a = { "x"{2} }', 'a = { "x"{1} ~ "x" }', WSP + 'a = { "x"{2} ~ "y" }', 'b = { "x" }\na = { (b ~ "y"){2} }', 'a = { "x"{3} }'], "alphabet": "xy ", "n": 5},
     "repeat_min": {"grammars": [WSP + 'a = { "x"{1,} }', WSP + 'a = { "x"{2,} ~ "y" }', 'b = { "x" }\na = { (b ~ "y"){1,} }', 'a = { "x"{2,} }'], "alphabet": "xy ", "n": 5},
